@@ -17,6 +17,11 @@ enum Content {
     One,
     Three,
     Torn,
+    /// five entries of which the second is torn inside a multi-byte character and glued to the
+    /// third: one line that is not valid UTF-8, followed by two complete entries
+    TornMid,
+    /// a line of valid UTF-8 that is not an entry, between two entries
+    BadJsonMid,
 }
 #[derive(Debug, Clone, Copy, PartialEq, Eq, PartialOrd, Ord)]
 enum Fault {
@@ -65,6 +70,8 @@ fn entries_for(log: u64, c: Content, rot: usize) -> Vec<WalEntry> {
     match c {
         Content::Empty => vec![],
         Content::One => vec![entry(log * 10, base_ts, &[pick(0), pick(1)])],
+        Content::TornMid => (0..5).map(|i| entry(log * 10 + i, base_ts + i, &[json!("café"), pick(i as usize)])).collect(),
+        Content::BadJsonMid => (0..2).map(|i| entry(log * 10 + i, base_ts + i, &[pick(i as usize), json!("é")])).collect(),
         Content::Three | Content::Torn => (0..3).map(|i| entry(log * 10 + i, base_ts + i, &[pick(i as usize * 3), pick(i as usize * 3 + 1), pick(i as usize * 3 + 2)])).collect(),
     }
 }
@@ -111,16 +118,43 @@ fn run_case(root: &Path, shard: usize, c: &Case) -> CaseResult {
     }
     for log in 0..=n {
         let (content, fault) = if log < n { c.logs[log as usize] } else { (Content::One, Fault::Ok) };
-        let es = entries_for(log, content, c.rot + log as usize * 5);
-        let mut text = String::new();
-        for e in &es {
-            text.push_str(&serde_json::to_string(e).unwrap());
-            text.push('\n');
+        let mut es = entries_for(log, content, c.rot + log as usize * 5);
+        let mut bytes: Vec<u8> = Vec::new();
+        match content {
+            Content::TornMid => {
+                // e0 | first half of e1 cut inside the two-byte 'é' + e2 glued on | e3 | e4
+                let lines: Vec<String> = es.iter().map(|e| serde_json::to_string(e).unwrap()).collect();
+                bytes.extend(lines[0].as_bytes());
+                bytes.push(b'\n');
+                let l1 = lines[1].as_bytes();
+                let cut = l1.windows(2).position(|w| w == "é".as_bytes()).map(|p| p + 1).unwrap_or(l1.len() / 2);
+                bytes.extend(&l1[..cut]);
+                bytes.extend(lines[2].as_bytes());
+                bytes.push(b'\n');
+                for l in &lines[3..] {
+                    bytes.extend(l.as_bytes());
+                    bytes.push(b'\n');
+                }
+                // the entries of this log are its complete lines
+                es = vec![es[0].clone(), es[3].clone(), es[4].clone()];
+            }
+            Content::BadJsonMid => {
+                bytes.extend(serde_json::to_string(&es[0]).unwrap().as_bytes());
+                bytes.extend(b"\n{\"timestamp\": 12, \"context_id\": \"half\n");
+                bytes.extend(serde_json::to_string(&es[1]).unwrap().as_bytes());
+                bytes.push(b'\n');
+            }
+            _ => {
+                for e in &es {
+                    bytes.extend(serde_json::to_string(e).unwrap().as_bytes());
+                    bytes.push(b'\n');
+                }
+                if content == Content::Torn {
+                    bytes.extend(b"{\"timestamp\":1700000099,\"context_id\":\"torn\",\"event_ty");
+                }
+            }
         }
-        if content == Content::Torn {
-            text.push_str("{\"timestamp\":1700000099,\"context_id\":\"torn\",\"event_ty");
-        }
-        std::fs::write(wal.join(format!("wal-{log:05}.log")), &text).unwrap();
+        std::fs::write(wal.join(format!("wal-{log:05}.log")), &bytes).unwrap();
         original.insert(log, es.iter().map(|e| serde_json::to_value(e).unwrap()).collect());
         if log < n && c.dirfault == DirFault::Present {
             let name = archive_name(log, &es);
@@ -174,6 +208,8 @@ fn run_case(root: &Path, shard: usize, c: &Case) -> CaseResult {
         if !deleted.is_empty() {
             violation = Some(("deleted-despite-archive-failure".to_string(), format!("archiving failed for at least one eligible log, yet logs {deleted:?} were deleted")));
         }
+    } else if c.logs.iter().any(|(ct, _)| matches!(ct, Content::TornMid | Content::BadJsonMid)) && deleted.is_empty() {
+        // a log with an unreadable line in the middle may be refused; then nothing is deleted
     } else {
         // every deleted log must be fully recoverable; with no fault all eligible logs are deleted
         if deleted.len() as u64 != n {
@@ -217,17 +253,19 @@ pub fn child(root: &str, tier: &str) -> i32 {
     unsafe { std::env::set_var("SNELDB_CONFIG", &cfg_path) };
     crate::interpose::set_clock_ms(BASE_CLOCK_MS);
     assert!(snel_db::shared::config::CONFIG.wal.conservative_mode);
-    let contents = [Content::Empty, Content::One, Content::Three, Content::Torn];
+    let contents_all = [Content::Empty, Content::One, Content::Three, Content::Torn, Content::TornMid, Content::BadJsonMid];
     let faults = [Fault::Ok, Fault::DirClash, Fault::SameArchive, Fault::OtherArchive];
     let dirfaults = [DirFault::Present, DirFault::Missing, DirFault::IsFile];
     let maxn = if tier == "quick" { 3 } else { 4 };
     let mut cases = Vec::new();
     for n in 0..=maxn {
+        // the two mid-file damage classes are combined with everything up to three eligible logs
+        let contents: &[Content] = if n <= 2 || (n == 3 && tier != "quick") { &contents_all } else { &contents_all[..4] };
         let mut combos: Vec<Vec<(Content, Fault)>> = vec![vec![]];
         for _ in 0..n {
             let mut next = Vec::new();
             for c in &combos {
-                for ct in contents {
+                for ct in contents.iter().copied() {
                     for f in faults {
                         let mut c2 = c.clone();
                         c2.push((ct, f));
@@ -318,7 +356,7 @@ pub fn check(tier: &str) -> i32 {
         coverage: json!({
             "evaluations": v["cases"],
             "distinct_nontrivial": v["outcomes"],
-            "rule": "all WAL directories with 0..n eligible logs (+1 ineligible), per log content in {empty, 1 entry, 3 entries over a 23-value payload alphabet, 3 entries + torn last line} x per-log archive fault in {none, archive name pre-created as a directory, same archive already present, other archive with the same name present} x archive dir in {present, missing, a regular file}; through WalCleaner::new(shard).cleanup_up_to(n) in conservative mode, then WalArchiveRecovery::recover_all; distinct_nontrivial = distinct (deleted set, recovered count) outcomes",
+            "rule": "all WAL directories with 0..n eligible logs (+1 ineligible), per log content in {empty, 1 entry, 3 entries over a 23-value payload alphabet, 3 entries + torn last line, 5 entries with the second torn inside a multi-byte character and glued to the third (a line that is not UTF-8 followed by complete entries), 2 entries around a malformed line; the last two for up to 2 (thorough 3) eligible logs} x per-log archive fault in {none, archive name pre-created as a directory, same archive already present, other archive with the same name present} x archive dir in {present, missing, a regular file}; through WalCleaner::new(shard).cleanup_up_to(n) in conservative mode, then WalArchiveRecovery::recover_all; distinct_nontrivial = distinct (deleted set, recovered count) outcomes",
             "samples": v["samples"],
             "exhaustive": true,
         }),
